@@ -84,11 +84,47 @@ class StmtMixin:
                 break
         return done + [Outcome("fall", c) for c in cur]
 
+    def _ghost_key(self, node, table):
+        if not table or isinstance(node, (ast.If, ast.For, ast.While, ast.Try, ast.FunctionDef, ast.AsyncFunctionDef)):
+            return None
+        key = ast.unparse(node).strip()
+        occ = getattr(self, "stmt_occ", {}).get(id(node))
+        if occ is not None and f"{key}#{occ}" in table:
+            return f"{key}#{occ}"
+        return key if key in table else None
+
+    def _run_ghost(self, node, st, items, key):
+        for k_, asg in enumerate(items):
+            if asg.startswith("assert"):
+                tags = None
+                body = asg[6:].lstrip()
+                if body.startswith("["):
+                    tl, body = body[1:].split("]", 1)
+                    tags = [t.strip() for t in tl.split(",")]
+                g = self.spec_bool(body, st)
+                lab = f"lemma#{k_}@{key[:30]}"
+                if tags:
+                    lab = tags[0] + "/" + lab
+                self.oblige(st, "hint", lab, g, node)
+                st.assume(Tagged(g, tags) if tags else g)
+                continue
+            name, expr = asg.split("=", 1)
+            name = name.strip()
+            val = self.spec_eval(expr.strip(), st)
+            if name.startswith("self."):
+                self.write_heap(st, name, val)
+            else:
+                st.env[name] = val
+
     def exec_stmt(self, node, st: St) -> List[Outcome]:
         m = getattr(self, "ex_" + type(node).__name__, None)
         if m is None:
             raise Unsupported(node, f"statement {type(node).__name__}")
         self.stmt_count += 1
+        gb = self.contract.ghost_before if self.contract else None
+        kb = self._ghost_key(node, gb)
+        if kb:
+            self._run_ghost(node, st, gb[kb], kb)
         saved = self.raised
         self.raised = []
         try:
@@ -97,27 +133,11 @@ class StmtMixin:
         finally:
             self.raised = saved
         ga = self.contract.ghost_after if self.contract else None
-        if ga and not isinstance(node, (ast.If, ast.For, ast.While, ast.Try, ast.FunctionDef)):
-            key = ast.unparse(node).strip()
-            if key in ga:
-                for o in outs:
-                    if o.kind == "fall":
-                        for k_, asg in enumerate(ga[key]):
-                            if asg.startswith("assert"):
-                                tags = None
-                                body = asg[6:].lstrip()
-                                if body.startswith("["):
-                                    tl, body = body[1:].split("]", 1)
-                                    tags = [t.strip() for t in tl.split(",")]
-                                g = self.spec_bool(body, o.st)
-                                lab = f"lemma#{k_}@{key[:30]}"
-                                if tags:
-                                    lab = tags[0] + "/" + lab
-                                self.oblige(o.st, "hint", lab, g, node)
-                                o.st.assume(Tagged(g, tags) if tags else g)
-                                continue
-                            name, expr = asg.split("=", 1)
-                            o.st.env[name.strip()] = self.spec_eval(expr.strip(), o.st)
+        ka = self._ghost_key(node, ga)
+        if ka:
+            for o in outs:
+                if o.kind == "fall":
+                    self._run_ghost(node, o.st, ga[ka], ka)
         return outs
 
     # evaluate an expression in statement context
@@ -400,14 +420,26 @@ class StmtMixin:
     def havoc_for_loop(self, st, node):
         body = list(node.body) + list(node.orelse)
         names = assigned_names(body)
-        ga = self.contract.ghost_after if self.contract else None
+        ga = {}
+        if self.contract:
+            for tbl in (self.contract.ghost_after, self.contract.ghost_before):
+                for k_, v_ in tbl.items():
+                    ga.setdefault(k_, [])
+                    ga[k_] = ga[k_] + v_
         if ga:
             for stmt in body:
                 for sub in ast.walk(stmt):
                     if isinstance(sub, ast.stmt) and not isinstance(sub, (ast.If, ast.For, ast.While, ast.Try)):
-                        for asg in ga.get(ast.unparse(sub).strip(), []):
+                        k0 = ast.unparse(sub).strip()
+                        occ = getattr(self, "stmt_occ", {}).get(id(sub))
+                        for asg in ga.get(k0, []) + (ga.get(f"{k0}#{occ}", []) if occ is not None else []):
                             if not asg.startswith("assert"):
-                                names.append(asg.split("=", 1)[0].strip())
+                                nm = asg.split("=", 1)[0].strip()
+                                if nm.startswith("self."):
+                                    if nm in st.heap:
+                                        self.havoc_loc(st, nm)
+                                else:
+                                    names.append(nm)
         for n in names:
             if n in st.env and isinstance(st.env[n], Val):
                 st.env[n] = fresh(st.env[n].sort, n)
